@@ -8,6 +8,7 @@ R2 only the recovery tasks request the recovery statuses, and the table allows t
 R3 a recovery run that loses a race still re-queues everything it had taken (typestate engine:
    no exit with an invocation left in *_RECOVERY)
 R4 the parent reports child heartbeats on every loop iteration, for live children only
+R5 a spawned worker's runner id is fresh (uuid4 / new_child_context), never one an earlier worker used
 """
 
 from __future__ import annotations
@@ -151,6 +152,23 @@ def r1(ctx: Context, sites) -> None:
                 if isinstance(n, ast.Assign) and any(isinstance(t, ast.Subscript) and self_attr(t) == "runner_last_heartbeat" for t in n.targets) and isinstance(n.value, ast.Name) and n.value.id in tn:
                     ok = True
         ctx.add("R1", f"{f.qualname}::heartbeat-stamped-with-time()", ok, f.loc(), "" if ok else "heartbeats are not stamped with time() (the clock the scans subtract from)")
+        # every reported runner gets its heartbeat refreshed, whoever reports it and whatever it registered before
+        if ss:
+            t_ = " ".join(ss[0].template.split())
+            tail = t_.upper().split("DO UPDATE SET", 1)[1] if "DO UPDATE SET" in t_.upper() else ""
+            uncond = bool(tail) and " WHERE " not in (" " + tail + " ")
+            loops = [n for n in walk_no_nested(f.node) if isinstance(n, ast.For) and ast.unparse(n.iter) == f.params[1]]
+            in_loop = bool(loops) and any(x is ss[0].call for x in ast.walk(loops[0])) and not any(isinstance(x, (ast.Continue, ast.Break)) for x in ast.walk(loops[0]))
+            ctx.add("R1", f"{f.qualname}::heartbeat-refreshed-for-every-reported-runner", uncond and in_loop, ss[0].where, "" if uncond and in_loop else "the upsert refreshes last_heartbeat only conditionally: a runner kept alive by its parent's reports can look dead to the running-invocation recovery, which then re-queues live work")
+        else:
+            loops = [n for n in walk_no_nested(f.node) if isinstance(n, ast.For) and ast.unparse(n.iter) == f.params[1]]
+            okh = False
+            if loops:
+                body = loops[0].body
+                hb = [st for st in body if isinstance(st, ast.Assign) and any(isinstance(t, ast.Subscript) and self_attr(t) == "runner_last_heartbeat" for t in st.targets)]
+                skips = [x for st in body for x in ast.walk(st) if isinstance(x, (ast.Continue, ast.Break, ast.Return)) and hb and x.lineno < hb[0].lineno]
+                okh = bool(hb) and not skips
+            ctx.add("R1", f"{f.qualname}::heartbeat-refreshed-for-every-reported-runner", okh, f.loc(), "" if okh else "some reported runner ids do not get runner_last_heartbeat refreshed (conditional / skipped): a runner kept alive by its parent's reports can look dead to the running-invocation recovery, which then re-queues live work")
 
 
 def _selects_on_true(f: FuncInfo, cmp_node: ast.AST) -> bool:
@@ -235,6 +253,56 @@ def r4(ctx: Context) -> None:
     ctx.floor("R4", "heartbeat obligations", ctx.count("R4"), 4)
 
 
+def _fresh_id_expr(v: ast.AST) -> bool:
+    """str(uuid.uuid4()) / uuid.uuid4() / <ctx>.new_child_context(<name>) with no runner_id argument"""
+    if isinstance(v, ast.Call) and isinstance(v.func, ast.Name) and v.func.id == "str" and len(v.args) == 1:
+        v = v.args[0]
+    if isinstance(v, ast.Call) and call_name(v) == "uuid4" and not v.args:
+        return True
+    if isinstance(v, ast.Call) and call_name(v) == "new_child_context" and len(v.args) <= 1 and not any(k.arg == "runner_id" for k in v.keywords):
+        return True
+    return False
+
+
+def r5(ctx: Context) -> None:
+    ctx.rule("R5", "a spawned worker gets a FRESH runner id: every key stored into <runner>.child_runner_ids is bound, by its only assignment in the function, to str(uuid.uuid4()) or to new_child_context(<name>) (which draws one) - a recycled id keeps heart-beating for the dead worker, so its RUNNING invocations never look orphaned")
+    n = 0
+    for cls in ctx.repo.classes.values():
+        if not cls.module.name.startswith("pynenc.runner"):
+            continue
+        for f in cls.methods.values():
+            for st in walk_no_nested(f.node):
+                if not (isinstance(st, ast.Assign) and any(isinstance(t, ast.Subscript) and self_attr(t) == "child_runner_ids" and isinstance(t.value, ast.Attribute) for t in st.targets)):
+                    continue
+                for t in st.targets:
+                    if not (isinstance(t, ast.Subscript) and self_attr(t) == "child_runner_ids"):
+                        continue
+                    n += 1
+                    root = t.slice
+                    while isinstance(root, (ast.Attribute, ast.Subscript)):
+                        root = root.value
+                    key = f"{f.qualname}::child-runner-id-is-fresh"
+                    if not isinstance(root, ast.Name):
+                        ctx.fail("R5", key, f.loc(st), f"the child runner id `{ast.unparse(t.slice)}` is not a local bound to a fresh id")
+                        continue
+                    binds = []
+                    for x in walk_no_nested(f.node):
+                        if isinstance(x, ast.Assign) and any(isinstance(tt, ast.Name) and tt.id == root.id for tt in x.targets):
+                            binds.append(x.value)
+                        elif isinstance(x, ast.AnnAssign) and isinstance(x.target, ast.Name) and x.target.id == root.id and x.value is not None:
+                            binds.append(x.value)
+                        elif isinstance(x, ast.NamedExpr) and x.target.id == root.id:
+                            binds.append(x.value)
+                        elif isinstance(x, (ast.For, ast.comprehension)) and root.id in names_in(x.target):
+                            binds.append(x.iter)
+                    if root.id in f.params:
+                        binds.append(ast.Name(id=f"<parameter {root.id}>"))
+                    bad = [b for b in binds if not _fresh_id_expr(b)]
+                    okf = bool(binds) and not bad
+                    ctx.add("R5", key, okf, f.loc(st), "" if okf else f"`{root.id}` may be bound to `{ast.unparse(bad[0])[:80] if bad else '?'}`: a spawned worker can inherit the runner id of an earlier (dead) worker; the parent keeps reporting that id alive, so the running-invocation recovery never treats the dead worker's RUNNING invocations as orphaned")
+    ctx.floor("R5", "child runner id registrations", n, 3)
+
+
 def run(ctx: Context) -> None:
     sm = extract(ctx.repo)
     sites = sqlmini.sites(ctx.repo)
@@ -242,6 +310,7 @@ def run(ctx: Context) -> None:
     r2(ctx, sm)
     r3(ctx, sm)
     r4(ctx)
+    r5(ctx)
     ctx.exhaustive = True
     ctx.not_decided += [
         "numeric behaviour at the boundary instant (decided only as the comparison operator)",
